@@ -98,6 +98,11 @@ def _extract_input_object(
 ) -> Dict[str, Any]:
     coerced = {}
     node_fields = {f.name.value: f for f in node.fields}
+    for name in node_fields:
+        if name not in type_.field_map:
+            raise InvalidValue(
+                "Field %s is not defined by type %s" % (name, type_.name), [node]
+            )
     for field in type_.fields:
         name = field.name
         target_name = field.python_name
